@@ -1,7 +1,8 @@
 (* C19 / C01 / C02: the COLLAPSED Inside stroke (Triangle::is_collapsed holds; any width >= 1, with or without a fill colour):
    ScanlineIntersections::new stores is_collapsed only for StrokeOffset::Right, and then every row of the styled bounding box is
    Triangle::scanline_intersection of the clockwise triangle, painted in the stroke colour: pixels() is, as a set, exactly the
-   set of rows Triangle::points() is made of (the triangle filled between its (y,x)-sorted Bresenham edges), in the stroke colour.
+   set of rows of Triangle::scanline_intersection (the function Triangle::points() iterates: the triangle filled between its
+   (y,x)-sorted Bresenham edges; no formal link to the points() model is stated here), in the stroke colour.
    Together with tri_outline_w1_any this characterises the width-1 stroke of EVERY triangle and alignment. *)
 From EG Require Import Base.Prelude Base.Lemmas Model.Geometry Model.Style Model.Line Model.Thickline Model.Join Model.JoinTri.
 From EG Require Import Proofs.Geometry Proofs.Line Proofs.Thickline Proofs.Join Proofs.JoinTri Proofs.JoinW1 Proofs.JoinTriDraw Proofs.JoinHull.
